@@ -19,6 +19,10 @@ func (e *Engine) timeType() types.Type { return e.lookupType("time", "Time") }
 
 func (e *Engine) freshNow(st *State) Value {
 	c := e.C
+	if st.ConcreteClock {
+		st.ClockTick++
+		return Struct{[]Value{e.C.BV(0, 64), e.i64(uint64(62135596800 + 1700000000 + st.ClockTick)), Ptr{}}}
+	}
 	s := e.ndVar(st, "time.now", 64, true)
 	lo := int64(62135596800)        // 1970
 	hi := int64(62135596800 + 1<<33) // ~ year 2242
@@ -70,12 +74,19 @@ func registerTime(e *Engine) {
 		return e.freshNow(st), true
 	}
 	I["(time.Time).UnixNano"] = func(e *Engine, st *State, th *Thread, args []Value, call *ssa.CallCommon) (Value, bool) {
+		if st.ConcreteClock {
+			st.ClockTick++
+			return e.i64(uint64(1700000000000000000 + st.ClockTick)), true
+		}
 		// defined only for instants between 1970 and 2262: non-negative
 		v := e.ndVar(st, "time.unixnano", 64, true)
 		e.addPC(st, e.C.Sge(v, e.i64(0)))
 		return v, true
 	}
 	dur := func(e *Engine, st *State) Value {
+		if st.ConcreteClock {
+			return e.i64(1000000) // 1ms
+		}
 		d := e.ndVar(st, "time.duration", 64, true)
 		e.addPC(st, c.And(c.Sge(d, e.i64(0)), c.Sle(d, e.i64(1<<50))))
 		return d
